@@ -19,7 +19,7 @@ EXTENDS CloneProps, FiniteSets
 CONSTANTS MaxPost,        \* number of steps explored after Clone
           PreOps,         \* in-place operations that may run on the original BEFORE Clone (at most one)
           MutateLast,     \* TRUE: Mutate may also be the 2nd, 3rd .. step after Clone (else only the first)
-          DevIsTarget,    \* TRUE: Clone as written today (named deviation Dev_CloneDropsIsTarget)
+          DevIsTarget,    \* TRUE: Clone as written before c7f96a4 (named deviation Dev_CloneDropsIsTarget); FALSE: today
           TargetSysIter   \* TRUE: the INTO measurement carries a SystemIterator (never set by the parser)
 
 VARIABLES h, orig, clone, post, last,
